@@ -90,6 +90,21 @@ def install() -> None:
         if getattr(mod, 'random', None) is not _real_random and not isinstance(getattr(mod, 'random', None), _RandomShim):
             raise HarnessError(f"{name} no longer references the `random` module by that name")
         mod.random = _RandomShim()  # type: ignore[attr-defined]
+    # Several operators share one loop here, while in reality each is a process of its own: kopf's exit
+    # routine treats EVERY task of the loop that appeared after its start as its own "hung" task and cancels
+    # it. The process boundary is restored by showing each operator only the tasks of its own process.
+    import asyncio
+    from kopf._cogs.aiokits import aiotasks
+    from kv.vloop import OPID
+    if not hasattr(aiotasks, 'all_tasks'):
+        raise HarnessError("kopf._cogs.aiokits.aiotasks.all_tasks is gone: the process-boundary seam must be revisited")
+
+    async def all_tasks(*, ignored: Any = frozenset()) -> Any:
+        current = asyncio.current_task()
+        mine = OPID.get()
+        return {task for task in asyncio.all_tasks()
+                if task is not current and task not in ignored and task.get_context().get(OPID) == mine}
+    aiotasks.all_tasks = all_tasks  # type: ignore[assignment]
     # The wall clock must not leak through other modules either: list what else uses it.
     logging.disable(logging.CRITICAL)
     _installed = True
